@@ -39,7 +39,23 @@ class FakeFS:
         return io.StringIO(self.files[path])
 
 
-def build(n, edges, kinds, rel, other_ns, leafkind, same=False):
+def _spell_impl(d):
+    """dotted spelling: the full name in "name", no "namespace" attribute"""
+    d = dict(d)
+    d["name"] = d.pop("namespace") + "." + d["name"]
+    return d
+
+
+_spell_native = rt.untraced(_spell_impl)
+
+
+def _spell(d, dotted):
+    if dotted:
+        return _spell_native(d)
+    return d
+
+
+def build(n, edges, kinds, rel, other_ns, leafkind, same=False, dotted=()):
     """n types T0..T(n-1); edges: dict (i, j) -> bool for i < j (Ti refers to Tj); kinds[(i, j)] in 0..3;
     rel[(i, j)]: namespace-relative spelling (only where the namespaces agree); other_ns[j]: Tj lives in namespace 'o'
     returns (defs: list of raw definitions (each refers to the others by name), full names)"""
@@ -75,6 +91,7 @@ def build(n, edges, kinds, rel, other_ns, leafkind, same=False):
                 # the same type used a second time from the same file (repeated use)
                 fields.append({"name": f"again{j}", "type": ["null", full[j]]})
         defs.append({"type": "record", "name": simple[i], "namespace": ns[i], "fields": fields})
+    defs = [_spell(d, bool(dotted[i]) if i < len(dotted) else False) for i, d in enumerate(defs)]
     return defs, full
 
 
@@ -82,7 +99,7 @@ def inline(defs, full, i, done):
     """definition of Ti with every first use of another type replaced by its (recursively inlined) definition"""
     d = copy.deepcopy(defs[i])
     done.add(full[i])
-    ns = d["namespace"]
+    ns = d["namespace"] if "namespace" in d else d["name"].rsplit(".", 1)[0]
 
     def res(t):
         if isinstance(t, list):
@@ -141,7 +158,7 @@ def deps_first(n, edges, reach):
     return order
 
 
-def ob_load(n, E, kinds_t, rel_t, ons_t, leafkind, missing, ordered, same=False):
+def ob_load(n, E, kinds_t, rel_t, ons_t, leafkind, missing, ordered, same=False, dotted=()):
     """E: tuple of (i, j) edges that exist (fixed per harness); kinds_t/rel_t: per edge; ons_t: per type;
     missing: -1 or the index into the reachable types (other than T0) whose file is removed"""
     edges = {e: True for e in E}
@@ -154,7 +171,7 @@ def ob_load(n, E, kinds_t, rel_t, ons_t, leafkind, missing, ordered, same=False)
         rel[e] = rel_t[idx]
     if not (0 <= leafkind < 3):
         return True, "out of domain"
-    defs, full = build(n, edges, kinds, rel, ons_t, leafkind, same)
+    defs, full = build(n, edges, kinds, rel, ons_t, leafkind, same, dotted)
     reach = reachable(n, edges)
     files = {f"{DIR}/{full[i]}.avsc": _dumps_native(defs[i]) for i in range(n)}
     gone = None
@@ -252,16 +269,20 @@ def harnesses(tier, seed):
                 # (suffix, call, params, samples)
                 ("positions", f"ob_load({n}, {E!r}, {wrapk}, {F_ne!r}, {F_n!r}, 0, -1, ordered)",
                  f"kinds: {kt}, ordered: bool", [(one, False), (two, True)]),
-                ("names", f"ob_load({n}, {E!r}, {K0!r}, {wrapr}, ons, leafkind, -1, {bool(seed & 1)}, same)",
-                 f"rel: {rt_}, ons: {ot}, leafkind: int, same: bool",
-                 [(fr, (False,) * n, 0, False), (tr, (False,) * (n - 1) + (True,), 1, True), (tr, (False,) * n, 2, False)]),
+                ("names", f"ob_load({n}, {E!r}, {K0!r}, {wrapr}, ons, 0, -1, {bool(seed & 1)}, same)",
+                 f"rel: {rt_}, ons: {ot}, same: bool",
+                 [(fr, (False,) * n, False), (tr, (False,) * (n - 1) + (True,), True), (tr, (False,) * n, False)]),
+                ("leaves", f"ob_load({n}, {E!r}, {K0!r}, {tr if ne > 1 else (True,)!r}, ons, leafkind, -1, {not bool(seed & 1)}, False)",
+                 f"ons: {ot}, leafkind: int", [((False,) * n, 0), ((False,) * (n - 1) + (True,), 1), ((False,) * n, 2)]),
+                ("dotted", f"ob_load({n}, {E!r}, {K0!r}, {wrapr}, {F_n!r}, 0, -1, False, False, dotted)",
+                 f"rel: {rt_}, dotted: {ot}", [(fr, (True,) * n), (tr, (True,) + (False,) * (n - 1)), (tr, (False,) * n)]),
                 ("missing", f"ob_load({n}, {E!r}, {wrapk}, {F_ne!r}, {F_n!r}, leafkind, missing, False)",
                  f"kinds: {kt}, leafkind: int, missing: int", [(one, 0, 0), (two, 1, 1)]),
             ]
             if th:
-                variants.append(("all", f"ob_load({n}, {E!r}, {wrapk}, {wrapr}, ons, leafkind, missing, ordered, same)",
-                                 f"kinds: {kt}, rel: {rt_}, ons: {ot}, leafkind: int, missing: int, ordered: bool, same: bool",
-                                 [(one, fr, (False,) * n, 0, -1, False, False)]))
+                variants.append(("all", f"ob_load({n}, {E!r}, {wrapk}, {wrapr}, ons, leafkind, missing, ordered, same, dotted)",
+                                 f"kinds: {kt}, rel: {rt_}, ons: {ot}, leafkind: int, missing: int, ordered: bool, same: bool, dotted: {ot}",
+                                 [(one, fr, (False,) * n, 0, -1, False, False, (False,) * n)]))
             for suffix, call, ps, samples in variants:
                 hs.append(Harness(f"load.{name}.{suffix}", "props.l19", ps, call + "[0]", replay_call=call,
                                   what=f"load_schema over dependency graph {E} ({suffix})", samples=samples,
